@@ -59,6 +59,7 @@ type tmplInfo struct {
 
 type helperClass struct {
 	constOnly, identSan, dqEscape, nlSafe bool
+	twoHex                                bool // percent-encodes with exactly two hex digits
 }
 
 func runC20(c *core.Ctx) {
@@ -139,6 +140,16 @@ func runC20(c *core.Ctx) {
 				helpers[name] = classifyHelper(prog, fn)
 				c.Func(core.FnName(fn))
 			}
+		}
+	}
+	for n, h := range helpers {
+		if !h.dqEscape {
+			continue
+		}
+		if h.twoHex {
+			c.Discharge("tmpl.hex", n, helperLits[n].Pos(), "percent-encodes each byte with exactly two hex digits")
+		} else {
+			c.Report("tmpl.hex", n, helperLits[n].Pos(), fmt.Sprintf("the escaping helper %q does not visibly encode a byte as a percent sign followed by exactly two hex digits (%%%%%%02X, a nibble table or encoding/hex): bytes below 0x10 come out as `%%9` / `%%A`, which the VCL parser rejects", n))
 		}
 	}
 	var hdesc []string
@@ -390,6 +401,46 @@ func classifyHelper(prog *core.Program, fn *ssa.Function) helperClass {
 	}
 	hc.dqEscape = hasQuote && hasPct
 	hc.nlSafe = hasNL || hasCtl
+	// exactly two hex digits per encoded byte: fmt verb %02X / %02x after a literal percent sign, a hex table indexed
+	// by both nibbles, or encoding/hex
+	for _, b := range fn.Blocks {
+		for _, in := range b.Instrs {
+			call, ok := in.(*ssa.Call)
+			if !ok {
+				continue
+			}
+			cal := call.Common().StaticCallee()
+			if cal == nil || cal.Pkg == nil {
+				continue
+			}
+			switch cal.Pkg.Pkg.Path() {
+			case "fmt":
+				for _, a := range call.Common().Args {
+					if k, ok := a.(*ssa.Const); ok && k.Value != nil && k.Value.Kind() == constant.String {
+						f := constant.StringVal(k.Value)
+						if strings.Contains(f, "%%%02X") || strings.Contains(f, "%%%02x") {
+							hc.twoHex = true
+						}
+					}
+				}
+			case "encoding/hex":
+				hc.twoHex = true
+			}
+		}
+	}
+	nib := 0
+	for _, b := range fn.Blocks {
+		for _, in := range b.Instrs {
+			if bo, ok := in.(*ssa.BinOp); ok {
+				if k, isK := core.ConstIntValue(bo.Y); isK && ((bo.Op == token.SHR && k == 4) || (bo.Op == token.AND && k == 15)) {
+					nib++
+				}
+			}
+		}
+	}
+	if nib >= 2 {
+		hc.twoHex = true
+	}
 	return hc
 }
 
@@ -872,6 +923,209 @@ func checkFetcherMapping(c *core.Ctx) {
 		}
 	}
 	c.Floor("tmpl.map", 30)
+	checkFetcherFilters(c)
+	checkStaleSliceCopies(c)
+}
+
+// checkFetcherFilters (tmpl.map): a faithful field is filled whenever the source has it; the store may depend on the
+// source being present or parseable, never on the value itself (a `> 0` test drops the /0 mask).
+func checkFetcherFilters(c *core.Ctx) {
+	prog := c.Prog
+	n := 0
+	for _, fn := range prog.ModuleFuncs("snippet/terraform", "snippet/remote") {
+		headers := map[*ssa.BasicBlock]bool{}
+		for _, l := range naturalLoops(fn) {
+			headers[l.header] = true
+		}
+		var cd *core.CtrlDeps
+		for _, b := range fn.Blocks {
+			for _, in := range b.Instrs {
+				st, ok := in.(*ssa.Store)
+				if !ok {
+					continue
+				}
+				fa, ok := st.Addr.(*ssa.FieldAddr)
+				if !ok || core.FieldOf(fa) == nil {
+					continue
+				}
+				owner := core.NamedTypeName(derefType(fa.X.Type()))
+				faithful := false
+				for _, f := range tmplFaithful[owner] {
+					if f == core.FieldOf(fa).Name() && strings.HasSuffix(core.FieldOwner(fa), "/snippet."+owner) {
+						faithful = true
+					}
+				}
+				if !faithful {
+					continue
+				}
+				n++
+				if cd == nil {
+					cd = core.NewCtrlDeps(fn)
+				}
+				valSlice := core.BackSlice(st.Val)
+				key := fmt.Sprintf("%s|%s.%s|filter", core.FnName(fn), owner, core.FieldOf(fa).Name())
+				bad := ""
+				for _, e := range cd.Transitive(b) {
+					if headers[e.From] {
+						continue
+					}
+					bo, ok := core.BranchCond(e.From).(*ssa.BinOp)
+					if !ok {
+						continue
+					}
+					switch bo.Op {
+					case token.LSS, token.GTR, token.LEQ, token.GEQ:
+					case token.EQL, token.NEQ:
+						if core.IsNilConst(bo.X) || core.IsNilConst(bo.Y) {
+							continue
+						}
+						if k, isK := bo.Y.(*ssa.Const); isK && k.Value != nil && k.Value.Kind() == constant.String && constant.StringVal(k.Value) == "" {
+							continue // "field absent" in a plan is the empty string
+						}
+					default:
+						continue
+					}
+					// does the test look at the value being stored?
+					for x := range core.BackSlice(bo) {
+						if _, isK := x.(*ssa.Const); isK {
+							continue
+						}
+						if x == ssa.Value(bo) {
+							continue
+						}
+						if valSlice[x] && !isIndexPhi(x) {
+							if _, isParam := x.(*ssa.Parameter); !isParam {
+								bad = c.Prog.Loc(bo.Pos())
+							}
+						}
+					}
+				}
+				if bad == "" {
+					c.Discharge("tmpl.map", key, in.Pos(), "filled whenever the source provides it")
+				} else {
+					c.Report("tmpl.map", key, in.Pos(), fmt.Sprintf("%s fills %s.%s only when a comparison of the value itself holds (%s): resources whose value fails the test (a /0 mask, an empty but present value) lose that part in the generated VCL", core.FnName(fn), owner, core.FieldOf(fa).Name(), bad))
+				}
+			}
+		}
+	}
+	_ = n
+}
+
+func isIndexPhi(v ssa.Value) bool {
+	phi, ok := v.(*ssa.Phi)
+	if !ok {
+		return false
+	}
+	b, ok := phi.Type().Underlying().(*types.Basic)
+	return ok && b.Info()&types.IsInteger != 0
+}
+
+// checkStaleSliceCopies (tmpl.stale): a slice stored into a struct field is a copy of the slice header. If the slice
+// variable is appended to afterwards and the field is not stored again, the struct misses what was appended later
+// (resources of Terraform child modules, for example).
+func checkStaleSliceCopies(c *core.Ctx) {
+	prog := c.Prog
+	n := 0
+	for _, fn := range prog.ModuleFuncs("snippet") {
+		for _, b := range fn.Blocks {
+			for _, in := range b.Instrs {
+				st, ok := in.(*ssa.Store)
+				if !ok {
+					continue
+				}
+				fa, ok := st.Addr.(*ssa.FieldAddr)
+				if !ok || core.FieldOf(fa) == nil {
+					continue
+				}
+				if _, isSlice := st.Val.Type().Underlying().(*types.Slice); !isSlice {
+					continue
+				}
+				// the variable: phi web + append results
+				web := map[ssa.Value]bool{}
+				var grow func(v ssa.Value)
+				grow = func(v ssa.Value) {
+					if web[v] {
+						return
+					}
+					web[v] = true
+					if phi, ok := v.(*ssa.Phi); ok {
+						for _, e := range phi.Edges {
+							grow(e)
+						}
+					}
+					if call, ok := v.(*ssa.Call); ok {
+						if bi, ok := call.Common().Value.(*ssa.Builtin); ok && bi.Name() == "append" {
+							grow(call.Common().Args[0])
+						}
+					}
+					if refs := v.Referrers(); refs != nil {
+						for _, r := range *refs {
+							if phi, ok := r.(*ssa.Phi); ok {
+								grow(phi)
+							}
+							if call, ok := r.(*ssa.Call); ok {
+								if bi, ok := call.Common().Value.(*ssa.Builtin); ok && bi.Name() == "append" && call.Common().Args[0] == v {
+									grow(call)
+								}
+							}
+						}
+					}
+				}
+				if _, isConst := st.Val.(*ssa.Const); isConst {
+					continue
+				}
+				grow(st.Val)
+				n++
+				// an append of the same variable that can happen after this store
+				var later *ssa.Call
+				for v := range web {
+					call, ok := v.(*ssa.Call)
+					if !ok || v == st.Val {
+						continue
+					}
+					if bi, ok := call.Common().Value.(*ssa.Builtin); !ok || bi.Name() != "append" {
+						continue
+					}
+					after := false
+					if call.Block() == b {
+						after = core.InstrDominates(st, call)
+					} else {
+						after = core.Reaches(b, call.Block())
+					}
+					if after {
+						later = call
+					}
+				}
+				key := fmt.Sprintf("%s|%s.%s", core.FnName(fn), core.NamedTypeName(derefType(fa.X.Type())), core.FieldOf(fa).Name())
+				if later == nil {
+					continue
+				}
+				// stored again afterwards?
+				restored := false
+				for _, b2 := range fn.Blocks {
+					for _, i2 := range b2.Instrs {
+						st2, ok := i2.(*ssa.Store)
+						if !ok || st2 == st {
+							continue
+						}
+						fa2, ok := st2.Addr.(*ssa.FieldAddr)
+						if !ok || core.FieldOf(fa2) != core.FieldOf(fa) || !web[st2.Val] {
+							continue
+						}
+						if core.Reaches(later.Block(), b2) {
+							restored = true
+						}
+					}
+				}
+				if restored {
+					c.Discharge("tmpl.stale", key, in.Pos(), "the field is stored again after the later append")
+				} else {
+					c.Report("tmpl.stale", key, in.Pos(), fmt.Sprintf("%s copies a slice into %s and appends to the slice variable afterwards (%s) without storing it into the field again: what is appended later never reaches the struct that is returned", core.FnName(fn), key[strings.Index(key, "|")+1:], prog.Loc(later.Pos())))
+				}
+			}
+		}
+	}
+	c.Extra("slice_field_stores_scanned", n)
 }
 
 func containsName(srcs, f string) bool {
